@@ -139,6 +139,11 @@ func effectsPass(w *World, id string) []*OwnOb {
 		out = append(out, checkSortedMap(w)...)
 	}
 	switch id {
+	case "C01", "C02", "C07", "C09", "C10", "C12", "C19":
+		// the ownership obligations rest on the assumed contract of deepClone (an equal tree that shares nothing)
+		out = append(out, checkDeepClone(w)...)
+	}
+	switch id {
 	case "C18":
 		// E1: content is read, and root handles are opened, only where the contracts say so
 		for _, fi := range lib {
@@ -906,6 +911,38 @@ func checkSortedMap(w *World) []*OwnOb {
 		}
 	}
 	return []*OwnOb{{Key: ".:sortedMap.effects[ascending key order, every entry once]", Kind: "effects", OK: ok, Pos: posStr(w, fi.Decl.Pos()), Why: why}}
+}
+
+// checkDeepClone: deepClone is under an ASSUMED contract (an equal tree that shares no map or list with its argument),
+// justified by how it is written: a serialisation round trip through yaml.Marshal / yaml.Unmarshal builds every node
+// afresh. The body is pinned to exactly that shape; a hand-written copy would have to be verified instead.
+func checkDeepClone(w *World) []*OwnOb {
+	key := ".:deepClone.effects[copies by a YAML round trip]"
+	fi := findFunc(w, ".:deepClone")
+	if fi == nil {
+		return []*OwnOb{{Key: key, Kind: "effects", OK: false, Why: "deepClone not found"}}
+	}
+	var calls []string
+	ast.Inspect(fi.Decl.Body, func(n ast.Node) bool {
+		if c, ok := n.(*ast.CallExpr); ok {
+			calls = append(calls, exprString(c))
+		}
+		return true
+	})
+	rets := 0
+	lastRet := ""
+	ast.Inspect(fi.Decl.Body, func(n ast.Node) bool {
+		if r, ok := n.(*ast.ReturnStmt); ok {
+			rets++
+			if len(r.Results) == 2 {
+				lastRet = exprString(r.Results[0]) + "," + exprString(r.Results[1])
+			}
+		}
+		return true
+	})
+	ok := len(calls) == 2 && calls[0] == "yaml.Marshal(v)" && calls[1] == "yaml.Unmarshal(yml, &ret)" && rets == 3 && lastRet == "ret,nil"
+	return []*OwnOb{{Key: key, Kind: "effects", OK: ok, Pos: posStr(w, fi.Decl.Pos()),
+		Why: "deepClone must be yaml.Marshal(v) followed by yaml.Unmarshal(yml, &ret) into a fresh value and return it (found calls " + strings.Join(calls, "; ") + ")"}}
 }
 
 // checkPackageVars: C09 — the set of package-level variables is the allow-listed, read-only one. A new package-level
